@@ -1,0 +1,55 @@
+//go:build verif
+
+package vgirpc
+
+import "time"
+
+// Read-only views of the sticky-session registry for the /verif C29 check.
+// Nothing here changes behaviour; the file only compiles with -tags verif.
+
+// VerifStickyLive returns the number of entries currently in the registry
+// (0 when sticky sessions are not enabled).
+func VerifStickyLive(h *HttpServer) int {
+	if h == nil || h.stickyRegistry == nil {
+		return 0
+	}
+	r := h.stickyRegistry
+	r.mu.Lock()
+	defer r.mu.Unlock()
+	return len(r.entries)
+}
+
+// VerifStickyLocked probes every registered entry's per-session lock with
+// TryLock (immediately followed by Unlock on success) and returns how many
+// were found held. Meaningful only at quiescence (no request in flight).
+func VerifStickyLocked(h *HttpServer) int {
+	if h == nil || h.stickyRegistry == nil {
+		return 0
+	}
+	r := h.stickyRegistry
+	r.mu.Lock()
+	entries := make([]*sessionEntry, 0, len(r.entries))
+	for _, e := range r.entries {
+		entries = append(entries, e)
+	}
+	r.mu.Unlock()
+	held := 0
+	for _, e := range entries {
+		if e.lock.TryLock() {
+			e.lock.Unlock()
+		} else {
+			held++
+		}
+	}
+	return held
+}
+
+// VerifSetReaperTick sets the reaper's tick period. Must be called before
+// the first sticky-aware request (the reaper goroutine reads it once when it
+// starts). No-op when sticky sessions are not enabled or d <= 0.
+func VerifSetReaperTick(h *HttpServer, d time.Duration) {
+	if h == nil || h.stickyRegistry == nil || d <= 0 {
+		return
+	}
+	h.stickyRegistry.reaperTick = d
+}
